@@ -11,16 +11,16 @@ open Rosmar Rosmar.Sql
 /-! ### View update: rows of documents with `cas > lastCas` are deleted; those with a body or xattrs are mapped again -/
 
 theorem tie_viewupdate_delete_pred (cid : Nat) (k : String) (r : Row) (last : Nat) :
-    Collection_updateView_WHERE_0.selects (env [("$where.collection", .int cid), ("$where.cas", .int last)]) (enc cid k r)
+    sel_by_casGt_collection.selects (env [("$where.collection", .int cid), ("$where.cas", .int last)]) (enc cid k r)
       = decide (r.cas > last) := by
   by_cases h : last < r.cas <;>
-  simp [Collection_updateView_WHERE_0, Select.selects, E.eval, SRow.get, env, enc, ofBool, SV.truthy, SV.same, h]
+  simp [sel_by_casGt_collection, Select.selects, E.eval, SRow.get, env, enc, ofBool, SV.truthy, SV.same, h]
 
 theorem tie_viewupdate_select_pred (cid : Nat) (k : String) (r : Row) (last : Nat) :
-    Collection_updateView_WHERE_1.selects (env [("$where.collection", .int cid), ("$where.cas", .int last)]) (enc cid k r)
+    sel_by_casGt_collection_or.selects (env [("$where.collection", .int cid), ("$where.cas", .int last)]) (enc cid k r)
       = (decide (r.cas > last) && !(decide (r.value.isNone ∧ r.xattrs = []))) := by
   by_cases h : last < r.cas <;> cases hv : r.value <;> cases hx : r.xattrs <;>
-  simp [Collection_updateView_WHERE_1, Select.selects, E.eval, SRow.get, env, enc, encV, encX, ofBool, SV.truthy, SV.same, h, hv, hx]
+  simp [sel_by_casGt_collection_or, Select.selects, E.eval, SRow.get, env, enc, encV, encX, ofBool, SV.truthy, SV.same, h, hv, hx]
 
 /-- A row the view update does not map again (no body and no xattrs) has no map input in the model either. -/
 theorem tie_view_mapinput (m : Nat) (k : String) (r : Row) (h : r.value.isNone ∧ r.xattrs = []) : View.mapRows m k r = [] := by
